@@ -393,6 +393,76 @@ type LockCommandData struct {
 	DataFlag     uint8
 }
 
+// ValidateLockCommandDataBytes checks that a value frame received from a peer
+// ([len4][stage|type][flag][properties][value]) is structurally sound, so that
+// the code interpreting it never indexes past its end.
+func ValidateLockCommandDataBytes(data []byte, depth int) error {
+	if len(data) < 6 {
+		return errors.New("lock data frame too short")
+	}
+	if int(uint32(data[0])|uint32(data[1])<<8|uint32(data[2])<<16|uint32(data[3])<<24) != len(data)-4 {
+		return errors.New("lock data frame length error")
+	}
+	commandType, dataFlag, valueOffset := data[4]&0x3f, data[5], 6
+	if dataFlag&LOCK_DATA_FLAG_CONTAINS_PROPERTY != 0 {
+		if len(data) < 8 {
+			return errors.New("lock data property error")
+		}
+		propertyLen := int(data[6]) | int(data[7])<<8
+		valueOffset = propertyLen + 8
+		if valueOffset > len(data) {
+			return errors.New("lock data property error")
+		}
+		for index := 0; index < propertyLen; {
+			if index+3 > propertyLen {
+				return errors.New("lock data property error")
+			}
+			index += (int(data[9+index]) | int(data[10+index])<<8) + 3
+			if index > propertyLen {
+				return errors.New("lock data property error")
+			}
+		}
+	}
+	value := data[valueOffset:]
+	switch commandType {
+	case LOCK_DATA_COMMAND_TYPE_INCR:
+		if len(value) != 8 {
+			return errors.New("lock data incr value error")
+		}
+	case LOCK_DATA_COMMAND_TYPE_PIPELINE:
+		if depth >= 8 {
+			return errors.New("lock data pipeline too deep")
+		}
+		for index := 0; index < len(value); {
+			if index+4 > len(value) {
+				return errors.New("lock data pipeline error")
+			}
+			dataLen := int(uint32(value[index]) | uint32(value[index+1])<<8 | uint32(value[index+2])<<16 | uint32(value[index+3])<<24)
+			if dataLen < 0 || dataLen > len(value)-index-4 {
+				return errors.New("lock data pipeline error")
+			}
+			if err := ValidateLockCommandDataBytes(value[index:index+4+dataLen], depth+1); err != nil {
+				return err
+			}
+			index += dataLen + 4
+		}
+	default:
+		if dataFlag&(LOCK_DATA_FLAG_VALUE_TYPE_ARRAY|LOCK_DATA_FLAG_VALUE_TYPE_KV) != 0 && commandType == LOCK_DATA_COMMAND_TYPE_SET {
+			for index := 0; index < len(value); {
+				if index+4 > len(value) {
+					return errors.New("lock data array value error")
+				}
+				valueLen := int(uint32(value[index]) | uint32(value[index+1])<<8 | uint32(value[index+2])<<16 | uint32(value[index+3])<<24)
+				if valueLen < 0 || valueLen > len(value)-index-4 {
+					return errors.New("lock data array value error")
+				}
+				index += valueLen + 4
+			}
+		}
+	}
+	return nil
+}
+
 func NewLockCommandDataFromOriginBytes(data []byte) *LockCommandData {
 	return &LockCommandData{data, data[4] >> 6, data[4] & 0x3f, data[5]}
 }
@@ -728,6 +798,9 @@ func (self *LockCommandData) DecodeLockCommand(lockCommand *LockCommand) error {
 			return errors.New("data size error")
 		}
 		copy(buf[4:], self.Data[valueOffset+68:valueOffset+dataLen+68])
+		if err = ValidateLockCommandDataBytes(buf, 1); err != nil {
+			return err
+		}
 		lockCommand.Data = NewLockCommandDataFromOriginBytes(buf)
 	}
 	return nil
